@@ -20,6 +20,9 @@ PY_BUILTINS = {
 }
 
 
+RESP_HAS = z3.Function('resp_has', U, U, z3.BoolSort())
+
+
 class ExprMixin:
     # -------------------------------------------------------------- helpers
     def eval_list(self, exprs, st):
@@ -556,7 +559,11 @@ class ExprMixin:
             else:
                 raise EngineError(f'in on {h.kind}')
         elif isinstance(container, Opaque) and container.kind == 'respdict':
-            return z3.Bool(fresh_name('in_resp'))
+            # membership in a response mapping: a fact about the response (same answer when asked again), recorded
+            from .state import Event
+            b = RESP_HAS(container.term, self.as_u_term(item, st))
+            st.trace.append(Event('read', 'respdict.__contains__', container, (item,), {}, b, line, st.held))
+            return b
         else:
             raise EngineError(f'in on {type(container).__name__} at line {line}')
         if is_sym(item_u) and z3.is_string(item_u):
